@@ -26,3 +26,5 @@ PY
   echo "$id: $([ $rc -gt 0 ] && echo caught || echo MISSED)"
 done
 git -C /repo status --short | grep -v npy | head
+# leave the generated Coq files in the state of the clean tree (a seeded change may have turned one into a fail-closed stub)
+PYTHONPATH=/repo:/verif /venv/bin/python -m harness.gen_tables >/dev/null; PYTHONPATH=/repo:/verif /venv/bin/python -m harness.gen_lif >/dev/null; PYTHONPATH=/repo:/verif /venv/bin/python -m harness.gen_evloop >/dev/null
